@@ -6,7 +6,8 @@ served by ``StaticFileHandler`` over the in-memory HTTP harness.  ``Range`` valu
 zeros) and then mutated at a named position (signs, underscores, inner/outer SP/HTAB, NBSP/NEL, hex,
 float, other unit, unit case, no/extra '=', extra dash, multiple ranges, trailing comma, superscript
 digits, empty) plus raw soup; conditional headers ``If-None-Match`` (exact / weak / ``*`` / list with
-match / non-matching / garbage) and ``If-Modified-Since`` (equal / after / before / garbage).  Every
+match / non-matching / garbage) and ``If-Modified-Since`` (all three RFC 9110 5.6.7 HTTP-date formats — IMF-fixdate, rfc850-date, asctime-date — with
+zones GMT / UTC / +0000 / -0000 / none / +0100 / -0500, at mtime-1s, mtime, mtime+1s, +-1h, far past / future; garbage).  Every
 case is requested three times: plain GET (baseline, supplies the ETag), GET and HEAD with the headers.
 Parts: ``main`` (Hypothesis), ``grid`` (every a-b / a- / -s with a, b, s <= n+1 for n <= 6 quick,
 n <= 40 thorough: exhaustive), ``grammar`` (direct ``httputil._parse_request_range`` incl. strings the
@@ -26,7 +27,8 @@ itself by an own strict parser):
 EITHER classes (both behaviours accepted, labelled): SP/HTAB-only deviations from the grammar
 (``ws_either``), ``last < first`` (``inverted_either``: 416 or ignored), suffix range on an empty file,
 304-vs-range precedence when both apply, non-lower-case unit, a list with one non-empty element,
-INM non-matching/garbage while IMS matches.
+INM non-matching/garbage while IMS matches; an If-Modified-Since >= mtime written in an obsolete format or with
+a zone other than GMT (honoured -> 304, or ignored -> full response; a value < mtime must never give 304).
 
 Known finding (open, narrow sig ``C27.invalid_range_honoured.unicode_space``): positions / unit padded
 with NBSP (0xA0) or NEL (0x85) are honoured because ``str.strip()`` strips Unicode whitespace
@@ -47,9 +49,15 @@ Sensitivity (quick tier, seed 1, one mutant at a time on a scratch copy; all cau
   M6 suffix clamp `start = 0` dropped                            -> caught (C27.server_error, bytes=-1 on n=0 -> 500)
   M7 check_etag_header: strong comparison only                   -> caught (C27.conditional_not_304, W/"etag")
   M8 Content-Length only set for GET (HEAD gets 0)               -> caught (C27.head_differs)
+  M9 should_return_304: the two lines normalising a timezone-less parsed If-Modified-Since to UTC dropped
+     (asctime-date, "-0000", no zone -> naive/aware comparison raises TypeError)
+       -> caught after the If-Modified-Since generator was extended to all three HTTP-date formats and zone variants
+          (C27.server_error: "If-Modified-Since: Sun, 13 Sep 2020 12:26:41" -> 500); it was MISSED before, when
+          only IMF-fixdate + GMT and garbage were generated.  replays/C27/ims-*.json pin the three naive forms.
 """
 import email.utils
 import re
+import time
 
 from hypothesis import strategies as st
 
@@ -201,7 +209,32 @@ def inm_value(form, etag):
     }[form]
 
 
+IMS_WHEN = {"before": -1, "equal": 0, "after": 1, "far_future": 10 ** 9, "far_past": -(10 ** 8), "hour_before": -3600, "hour_after": 3600}
+IMS_FMTS = ["imf", "rfc850", "asctime"]
+IMS_ZONES = {"GMT": 0, "UTC": 0, "+0000": 0, "-0000": 0, "": 0, "+0100": 3600, "-0500": -18000}
+_DAYS = ["Mon", "Tue", "Wed", "Thu", "Fri", "Sat", "Sun"]
+_LONGDAYS = ["Monday", "Tuesday", "Wednesday", "Thursday", "Friday", "Saturday", "Sunday"]
+_MONTHS = ["Jan", "Feb", "Mar", "Apr", "May", "Jun", "Jul", "Aug", "Sep", "Oct", "Nov", "Dec"]
+
+
+def http_date(instant, fmt, zone):
+    """The instant written in one of the three RFC 9110 5.6.7 HTTP-date formats; the clock fields are
+    those of the given zone (asctime-date carries no zone)."""
+    t = time.gmtime(instant + (IMS_ZONES[zone] if fmt != "asctime" else 0))
+    hms = "%02d:%02d:%02d" % (t.tm_hour, t.tm_min, t.tm_sec)
+    if fmt == "imf":
+        out = "%s, %02d %s %04d %s" % (_DAYS[t.tm_wday], t.tm_mday, _MONTHS[t.tm_mon - 1], t.tm_year, hms)
+    elif fmt == "rfc850":
+        out = "%s, %02d-%s-%02d %s" % (_LONGDAYS[t.tm_wday], t.tm_mday, _MONTHS[t.tm_mon - 1], t.tm_year % 100, hms)
+    else:
+        return "%s %s %2d %s %04d" % (_DAYS[t.tm_wday], _MONTHS[t.tm_mon - 1], t.tm_mday, hms, t.tm_year)
+    return (out + " " + zone).rstrip(" ")
+
+
 def ims_value(form, mtime):
+    if isinstance(form, (tuple, list)):
+        when, fmt, zone = form
+        return http_date(mtime + IMS_WHEN[when], fmt, zone)
     return {
         "equal": email.utils.formatdate(mtime, usegmt=True),
         "after": email.utils.formatdate(mtime + 1, usegmt=True),
@@ -211,17 +244,33 @@ def ims_value(form, mtime):
     }[form]
 
 
+def ims_info(ims):
+    """-> None | "garbage" | (not_modified_since: bool, decided: bool).  Only the preferred format
+    (IMF-fixdate with GMT) is `decided`; obsolete formats / non-GMT zones may be honoured or ignored."""
+    if ims is None:
+        return None
+    if isinstance(ims, (tuple, list)):
+        when, fmt, zone = ims
+        return (IMS_WHEN[when] >= 0, fmt == "imf" and zone == "GMT")
+    if ims == "garbage":
+        return "garbage"
+    return (ims in ("equal", "after", "far_future"), True)
+
+
 def conditional(inm, ims):
     """-> must304 | no304 | either"""
-    ims_match = ims in ("equal", "after", "far_future")
+    info = ims_info(ims)
+    ims_match = isinstance(info, tuple) and info[0]
     if inm in ("match", "weak", "star", "list_match"):
         return "must304"
     if inm in ("nomatch", "list_nomatch", "weak_nomatch", "garbage", "empty"):
         # RFC 9110 13.1.3: IMS is ignored when INM is present; the statement is silent -> EITHER if IMS matches
         return "either" if ims_match else "no304"
-    if ims is None or ims in ("before", "garbage"):
+    if not ims_match:
         return "no304"
-    return "must304"
+    # an If-Modified-Since at or after the mtime: 304 is required for the preferred HTTP-date format; the
+    # obsolete formats and non-GMT zones may be honoured (304) or ignored (full response) -- EITHER
+    return "must304" if info[1] else "either"
 
 
 # --------------------------------------------------------------------------- generators
@@ -374,7 +423,10 @@ def case_s(draw):
     if cond >= 6:
         inm = draw(st.sampled_from(INM_FORMS))
     if cond in (4, 5, 8, 9):
-        ims = draw(st.sampled_from(IMS_FORMS))
+        ims = draw(st.one_of(st.sampled_from(IMS_FORMS),
+                             st.tuples(st.sampled_from(sorted(IMS_WHEN)), st.sampled_from(IMS_FMTS), st.sampled_from(sorted(IMS_ZONES))),
+                             st.tuples(st.sampled_from(["before", "equal", "after"]), st.sampled_from(IMS_FMTS),
+                                       st.sampled_from(sorted(IMS_ZONES)))))
     return {"n": n, "range": rng, "inm": inm, "ims": ims, "mut": mut}
 
 
@@ -492,6 +544,12 @@ def run_case(ctx, case):
             allowed = allowed | {("200",)}
     labels |= rl
     cond = conditional(inm, ims)
+    if isinstance(ims, (tuple, list)):
+        labels.add("ims_fmt_" + ims[1])
+        zone = "none" if ims[1] == "asctime" else (ims[2] or "none")
+        labels.add("ims_zone_" + zone)
+        if (ims[1] == "asctime" or ims[2] in ("", "-0000")) and inm is None:
+            labels.add("ims_naive_no_inm")  # parses to a timezone-less datetime and is really compared
     honoured_range_possible = cls not in ("absent", "invalid")
     if cond == "must304":
         labels.add("cond_match")
@@ -588,7 +646,8 @@ def run_grammar(ctx, s):
 
 PARTS = {"main": run_case, "grid": run_case, "grammar": run_grammar}
 REQUIRED = ["suffix", "end_beyond", "start_eq_size", "invalid_underscore", "invalid_sign", "multi_range", "etag_304", "head",
-            "g_invalid_non_ascii", "multi_chunk_file", "cond_and_range_either", "inverted_either"]
+            "g_invalid_non_ascii", "multi_chunk_file", "cond_and_range_either", "inverted_either",
+            "ims_fmt_rfc850", "ims_fmt_asctime", "ims_naive_no_inm", "ims_zone_+0100"]
 
 
 def main(ctx):
